@@ -13,6 +13,8 @@ for d in scheduler buffer socket; do
   chmod -R u+w $V/build/deps/$d
 done
 cp $V/harness/inject/scheduler_reset.go.txt $V/build/deps/scheduler/verif_reset.go
+grep -q 'buckets\[seq%numBuckets\].Schedule(task)' $V/build/deps/scheduler/scheduler.go || { echo "ENGINE-ERROR hslam/scheduler changed: cannot route Schedule through verifBucket"; exit 2; }
+sed -i 's/buckets\[seq%numBuckets\].Schedule(task)/verifBucket(seq % numBuckets).Schedule(task)/' $V/build/deps/scheduler/scheduler.go
 cp /repo/go.sum $V/harness/go.sum
 # warm the build cache with the instrumented tree
 $V/vcheck.sh --build-only
